@@ -272,6 +272,74 @@ def stokes_green_cases(slot: int, mono: Any, mname: str) -> list[tuple[str, str]
     return out
 
 
+def composite_fields() -> dict:
+    """fields with several non-zero components (the functionals are linear, but an implementation
+    need not be): in particular fields whose curl or divergence vanishes *on the boundary curve*
+    without vanishing inside, gradient fields, and rigid rotation"""
+    return {
+        "curl-zero-on-circle": [-(y**3 / 3 - Rr**2 * y / 2), x**3 / 3 - Rr**2 * x / 2],
+        "div-zero-on-circle": [x**3 / 3 - Rr**2 * x / 2, y**3 / 3 - Rr**2 * y / 2],
+        "curl-zero-on-ellipse": [-(y**3 / (3 * b**2) - y / 2), x**3 / (3 * a**2) - x / 2],
+        "div-zero-on-ellipse": [x**3 / (3 * a**2) - x / 2, y**3 / (3 * b**2) - y / 2],
+        "curl-zero-on-rectangle": [sp.S.Zero, (x**3 / 3 - a * x**2 / 2) * y * (y - b)],
+        "div-zero-on-rectangle": [(x**3 / 3 - a * x**2 / 2) * y * (y - b), sp.S.Zero],
+        "gradient": [2 * x * y, x**2 + 1],
+        "rotation": [-y, x],
+        "mixed": [x * y - y, x**2 + y, x],
+    }
+
+
+def composite_cases(fname: str) -> list[tuple[str, str]]:
+    from symplyphysics import CoordinateSystem
+    from symplyphysics.core.fields import analysis as A
+    cs = CoordinateSystem()
+    F = composite_fields()[fname]
+    F3 = list(F) + [sp.S.Zero] * (3 - len(F))
+    fld = lib_field(list(F), cs)
+    out = []
+    for name, (curve, lim, surf, l1, l2) in closed_curves().items():
+        tag = f"composite:{name}:{fname}"
+        circ = call(A.circulation_along_curve, fld, curve, lim)
+        circ_s = call(A.circulation_along_surface_boundary, fld, surf + [0], l1, l2)
+        want = ref_line(F3, curve, lim)
+        out.append((f"stokes:{tag}", "" if equal(circ, circ_s) else
+            f"circulation along the curve {short(circ)} != curl over the surface {short(circ_s)}"))
+        out.append((f"circulation=ref:{tag}", "" if equal(circ, want) else
+            f"circulation {short(circ)}, closed form {short(want)}"))
+        flux = call(A.flux_across_curve, fld, curve, lim)
+        flux_s = call(A.flux_across_surface_boundary, fld, surf + [0], l1, l2)
+        wantf = ref_div_area(F3[:2], surf, l1, l2)
+        out.append((f"green:{tag}", "" if equal(flux, flux_s) else
+            f"flux across the curve {short(flux)} != divergence over the region {short(flux_s)}"))
+        out.append((f"flux=ref:{tag}", "" if equal(flux, wantf) else
+            f"flux across the curve {short(flux)}, closed form {short(wantf)}"))
+        rcurve = [c_.subs({t: -t}) for c_ in curve]
+        cr = call(A.circulation_along_curve, fld, rcurve, lim)
+        out.append((f"orientation:circulation:{tag}", "" if equal(cr, -circ) else
+            f"clockwise curve gives {short(cr)}, expected {short(-circ)}"))
+        fr = call(A.flux_across_curve, fld, rcurve, lim)
+        out.append((f"orientation:flux:{tag}", "" if equal(fr, -flux) else
+            f"clockwise curve gives flux {short(fr)}, expected {short(-flux)}"))
+        out.append((f"clean:{tag}", clean(circ, cs) or clean(circ_s, cs) or clean(flux, cs) or
+            clean(flux_s, cs)))
+    tag = f"composite:rectangle:{fname}"
+    segs = rectangle_segments()
+    circ = sum(call(A.circulation_along_curve, fld, cv, lm) for cv, lm in segs)
+    circ_s = call(A.circulation_along_surface_boundary, fld, [u, v, 0], (u, 0, a), (v, 0, b))
+    want = sum(ref_line(F3, cv, lm) for cv, lm in segs)
+    out.append((f"stokes:{tag}", "" if equal(circ, circ_s) else
+        f"circulation along the four sides {short(circ)} != curl over the rectangle {short(circ_s)}"))
+    out.append((f"circulation=ref:{tag}", "" if equal(circ, want) else
+        f"circulation {short(circ)}, closed form {short(want)}"))
+    flux = sum(call(A.flux_across_curve, fld, cv, lm) for cv, lm in segs)
+    flux_s = call(A.flux_across_surface_boundary, fld, [u, v, 0], (u, 0, a), (v, 0, b))
+    out.append((f"green:{tag}", "" if equal(flux, flux_s) else
+        f"flux across the four sides {short(flux)} != divergence over the rectangle {short(flux_s)}"))
+    # the rectangle's boundary as ONE closed piecewise curve is not expressible; a closed polygon
+    # through a single smooth parametrisation is the circle / ellipse above
+    return out
+
+
 def gauss_cases(slot: int, mono: Any, mname: str) -> list[tuple[str, str]]:
     from symplyphysics import CoordinateSystem
     from symplyphysics.core.fields import analysis as A
@@ -353,13 +421,13 @@ def _work(item: tuple) -> dict:
                 res0["violations"].append((k0, v0, {"item": ["curvilinear", item[1], ""], "key": k0}))
         return res0
     kind, slot, mtxt = item
-    mono = sp.sympify(mtxt, locals={"x": x, "y": y, "z": z})
+    mono = None if kind == "composite" else sp.sympify(mtxt, locals={"x": x, "y": y, "z": z})
     res: dict[str, Any] = {"n": 0, "keys": [], "outcomes": {}, "violations": [], "undecided": [],
         "samples": []}
     try:
         with time_limit(240):
-            cases = (stokes_green_cases(slot, mono, mtxt) if kind == "planar" else gauss_cases(slot,
-                mono, mtxt))
+            cases = (composite_cases(mtxt) if kind == "composite" else stokes_green_cases(slot,
+                mono, mtxt) if kind == "planar" else gauss_cases(slot, mono, mtxt))
     except CaseTimeout:
         res["n"] = 1
         res["undecided"].append((f"{kind}:F{slot}={mtxt}", "integration timeout"))
@@ -391,6 +459,7 @@ def main(run: Run) -> int:
             items.append(("planar", slot, str(m)))
             items.append(("box", slot, str(m)))
     items += [("curvilinear", "cylindrical", ""), ("curvilinear", "spherical", "")]
+    items += [("composite", 0, f) for f in composite_fields()]
     for r in pmap(_work, rotate(items, run.seed)):
         n = r.pop("n")
         run.evaluations += n
@@ -401,10 +470,11 @@ def main(run: Run) -> int:
     return run.finish(
         rule="field basis (one monomial of degree <= d, or sin x / cos y, in one component slot) x "
         "regions x {Stokes, Green, Gauss, closed form, orientation reversal, freedom from coordinate "
-        "variables}; distinct = case keys",
+        "variables}; 9 composite fields (curl / divergence vanishing on the boundary only, gradient, "
+        "rotation, three components) x the planar regions; distinct = case keys",
         exhaustive=True,
         assumptions=["the functionals are linear in the field, so the monomial basis decides "
-            "polynomial fields of the bounded degree", "sympy.integrate / simplify are trusted for the "
+            "polynomial fields of the bounded degree for a linear implementation; the composite fields probe non-linear shortcuts", "sympy.integrate / simplify are trusted for the "
             "closed forms"])
 
 
